@@ -473,6 +473,13 @@ func (bg *Reader) Seek(off Offset) error {
 							// wanted. It becomes the current block,
 							// so it must not also be cached.
 							bg.current = blk
+							// Discard a redirection the read-ahead has
+							// not taken yet; sending would block with
+							// the decompressor it needs in our hands.
+							select {
+							case <-bg.control:
+							default:
+							}
 							bg.control <- bg.current.NextBase()
 							bg.waiting <- dec
 							dec = nil
